@@ -55,6 +55,7 @@ func checkC01(c *Ctx) {
 		runConcreteTypes(c, "c01/concrete", encs, fs)
 		runFirstUse(c, "c01/firstuse", encs)
 		runEnvSense(c, "c01/environment")
+		runDeviceShapes(c, "c01/shapes")
 	}
 	if slow != nil {
 		rep := <-slow
